@@ -248,7 +248,27 @@ def _nested_else(f):
     return "Syntax.UnexpectedToken" in blob
 
 
-_MATCHERS = {"KF-ELSE-RESUME": _else_resume, "KF-NESTED-ELSE": _nested_else}
+def _forward_fn(f):
+    """KF-FORWARD-FN: a DEF body that calls a function defined on a later line, failing with TypeMismatch / a syntax error."""
+    texts = [_unhex(o.split(" ", 1)[1]) for o in f.get("ops", []) if o.startswith("start ") and " " in o]
+    defs = {}
+    for t in texts:
+        m = re.match(r"\s*(\d+)\s*DEF\s+([A-Z][A-Z0-9]*\$?)\s*\(([^)]*)\)\s*=(.*)", t, re.I)
+        if m:
+            defs[m.group(2).upper()] = (int(m.group(1)), m.group(4))
+    forward = False
+    for name, (line, body) in defs.items():
+        for callee in re.findall(r"([A-Z][A-Z0-9]*\$?)\s*\(", body, re.I):
+            c = callee.upper()
+            if c in defs and defs[c][0] > line:
+                forward = True
+    if not forward:
+        return False
+    blob = " ".join(f.get("impl_replies", [])) + " " + str(f.get("detail", ""))
+    return "TypeMismatch" in blob or "Syntax.ExpectedToken" in blob or "Syntax.UnexpectedToken" in blob
+
+
+_MATCHERS = {"KF-ELSE-RESUME": _else_resume, "KF-NESTED-ELSE": _nested_else, "KF-FORWARD-FN": _forward_fn}
 
 
 def known_match(pid, failure):
